@@ -63,12 +63,53 @@ def r20_1(ctx):
             if l is not None and mt["dest"][0] in backward_slice(pf, [l])[0]:
                 bounded = True
         okc = has_len and has_i and bounded
+    if not okc:
+        # the clamp written as a comparison: the bound of the scanned prefix is, on the edge where i > len, len itself
+        from .c01 import _sym
+        from ..intervals import Intervals
+        idx = [(b, t) for b, t in pf.calls() if callee_is(t, "index") and "slice" in t["callee"]]
+        lens = {b for b, t in pf.calls() if callee_is(t, "len")}
+        for b, t in idx:
+            l = op_local(t["args"][1])
+            sl, leaves = backward_slice(pf, [l]) if l is not None else (set(), [])
+            # every definition of the bound is either len() or the parameter under a dominating `i <= len` edge
+            ends = [x for x in sl | {l} if len(pf.defs.get(x, [])) >= 2]
+            for e_ in ends:
+                good = 0
+                for d in pf.defs.get(e_, []):
+                    if d[0] == "call" and callee_is(d[2], "len"):
+                        good += 1
+                        continue
+                    if d[0] != "stmt" or d[3]["rv"]["k"] != "use":
+                        continue
+                    v = _sym(pf, d[3]["rv"]["op"])
+                    if v and v[0] and v[0][0] == "call" and v[0][1] in lens and v[1] == 0:
+                        good += 1
+                    elif v and v[0] == ("param", 1) and v[1] == 0:
+                        # guarded by a comparison of the parameter with len() on the not-greater edge
+                        for bb, ii, ss in pf.assigns():
+                            r2 = ss["rv"]
+                            if r2["k"] == "binop" and r2["op"] in ("Gt", "Ge", "Lt", "Le") and pf.dominates(bb, d[1]):
+                                sa, sb_ = _sym(pf, r2["a"]), _sym(pf, r2["b"])
+                                if sa and sb_ and {sa[0], sb_[0]} >= {("param", 1)} and any(x[0] and x[0][0] == "call" and x[0][1] in lens for x in (sa, sb_)):
+                                    ee = bool_switch_edges(pf, ss["lhs"][0])
+                                    idx_left = sa[0] == ("param", 1)
+                                    op = r2["op"] if idx_left else {"Lt": "Gt", "Gt": "Lt", "Le": "Ge", "Ge": "Le"}[r2["op"]]
+                                    within = ee[1] if op in ("Gt", "Ge") else ee[0] if ee else None
+                                    if ee and within is not None and (d[1] == within or pf.dominates(within, d[1])):
+                                        good += 1
+                if good >= 2 and good == len(pf.defs.get(e_, [])):
+                    okc = True
     ctx.ob("R20.1", "Position::from_index:clamp", okc, pf.loc(), "Position::from_index clamps the index to the slice length before scanning")
     # the scan compares against the newline byte only
     bytes_cmp = set()
     for b, t in pf.terms():
         if t["k"] == "switch" and t.get("dty") == "u8":
             bytes_cmp |= {int(v) for v, _ in t["targets"]}
+    for b, i, st in pf.assigns():
+        rv = st["rv"]
+        if rv["k"] == "binop" and rv["op"] in ("Eq", "Ne") and "u8" in (rv["a"].get("ty"), rv["b"].get("ty")):
+            bytes_cmp |= {x for x in (op_int(rv["a"]), op_int(rv["b"])) if x is not None}
     ctx.ob("R20.1", "Position::from_index:newline", bytes_cmp == {10}, pf.loc(), f"line breaks are recognised by byte(s) {sorted(bytes_cmp)}")
 
 
